@@ -96,8 +96,14 @@ func (w *world) shared(name string, args []any, fn func() []byte) {
 	}
 	before := snapAll()
 	var ref []byte
-	if c.Guard(name+"/panic", func() string { return "solo call" }, func() { ref = fn() }) {
+	// the solo call runs under the no-progress watchdog: a call that parks all its goroutines for good (or spins on a
+	// trivial workload) for one setting of the task count while it returns at once for another is a dependence on
+	// that option
+	if !mon.Watch(c, name, func() string { return name + " (solo call)" }, 90*time.Second, func() { ref = fn() }) {
 		return
+	}
+	if ref == nil {
+		return // the call panicked (reported by the watchdog wrapper)
 	}
 	checkArgs := func(phase string) bool {
 		after := snapAll()
